@@ -5,6 +5,7 @@ package c12
 import (
 	"bytes"
 	"context"
+	"encoding/binary"
 	"errors"
 	"fmt"
 	"reflect"
@@ -535,7 +536,9 @@ var confusers = []func(id uint32) message.Message{
 	func(id uint32) message.Message {
 		return &message.DownstreamCloseResponse{RequestID: message.RequestID(id), ResultCode: message.ResultCodeSucceeded}
 	},
-	func(id uint32) message.Message { return &message.ConnectResponse{RequestID: message.RequestID(id), ResultCode: message.ResultCodeSucceeded} },
+	func(id uint32) message.Message {
+		return &message.ConnectResponse{RequestID: message.RequestID(id), ResultCode: message.ResultCodeSucceeded}
+	},
 	func(id uint32) message.Message {
 		return &message.UpstreamOpenRequest{RequestID: message.RequestID(id)}
 	},
@@ -718,4 +721,154 @@ func TestRegress(t *testing.T) {
 	for w := range confusers {
 		subFrames.One(t, FrameCase{Codec: "proto", Reactions: []Reaction{{Kind: "confuse", With: w}}})
 	}
+}
+
+// ---------------------------------------------------------------------------------------------
+// systematic field sweep over valid protobuf encodings: every varint field of every message type (nested ones included) is set to
+// every hostile number in turn, every length-delimited leaf to hostile lengths. Random byte mutation reaches a given nested enum
+// with a given undefined number only by luck (seeded change C12/m3 hid behind that: an undefined result code next to a VALID
+// stream id); the sweep reaches every one of them, each time.
+
+type pbNode struct {
+	num      uint64
+	wt       uint64
+	v        uint64 // varint / fixed value
+	raw      []byte // length-delimited payload (leaf)
+	children []*pbNode
+	nested   bool
+}
+
+func pbParse(b []byte, depth int) ([]*pbNode, bool) {
+	var out []*pbNode
+	for len(b) > 0 {
+		tag, n := binary.Uvarint(b)
+		if n <= 0 {
+			return nil, false
+		}
+		b = b[n:]
+		nd := &pbNode{num: tag >> 3, wt: tag & 7}
+		if nd.num == 0 {
+			return nil, false
+		}
+		switch nd.wt {
+		case 0:
+			v, m := binary.Uvarint(b)
+			if m <= 0 {
+				return nil, false
+			}
+			nd.v, b = v, b[m:]
+		case 1:
+			if len(b) < 8 {
+				return nil, false
+			}
+			nd.v, b = binary.LittleEndian.Uint64(b), b[8:]
+		case 5:
+			if len(b) < 4 {
+				return nil, false
+			}
+			nd.v, b = uint64(binary.LittleEndian.Uint32(b)), b[4:]
+		case 2:
+			l, m := binary.Uvarint(b)
+			if m <= 0 || uint64(len(b)-m) < l {
+				return nil, false
+			}
+			nd.raw = append([]byte(nil), b[m:m+int(l)]...)
+			b = b[m+int(l):]
+			if depth < 8 && len(nd.raw) > 0 {
+				if ch, ok := pbParse(nd.raw, depth+1); ok {
+					nd.children, nd.nested = ch, true
+				}
+			}
+		default:
+			return nil, false
+		}
+		out = append(out, nd)
+	}
+	return out, true
+}
+
+func pbSerialize(ns []*pbNode) []byte {
+	var out []byte
+	for _, n := range ns {
+		out = binary.AppendUvarint(out, n.num<<3|n.wt)
+		switch n.wt {
+		case 0:
+			out = binary.AppendUvarint(out, n.v)
+		case 1:
+			out = binary.LittleEndian.AppendUint64(out, n.v)
+		case 5:
+			out = binary.LittleEndian.AppendUint32(out, uint32(n.v))
+		case 2:
+			p := n.raw
+			if n.nested {
+				p = pbSerialize(n.children)
+			}
+			out = binary.AppendUvarint(out, uint64(len(p)))
+			out = append(out, p...)
+		}
+	}
+	return out
+}
+
+// pbLeaves lists every node of the tree (pre-order).
+func pbLeaves(ns []*pbNode, f func(*pbNode)) {
+	for _, n := range ns {
+		f(n)
+		if n.nested {
+			pbLeaves(n.children, f)
+		}
+	}
+}
+
+var hostileNumbers = []uint64{0, 1, 3, 4, 5, 63, 88, 91, 127, 132, 255, 1 << 20, 1<<31 - 1, 1 << 31, 1<<32 - 1, 1<<63 - 1, 1<<64 - 1}
+
+func TestFieldSweep(t *testing.T) {
+	idx, total := 0, 0
+	for _, p := range msggen.Registry {
+		m := msggen.BuildMessage(p, fixedChooser{})
+		var buf bytes.Buffer
+		if _, err := encByName("proto").EncodeTo(&buf, m); err != nil {
+			t.Fatalf("harness: encode %T: %v", m, err)
+		}
+		tree, ok := pbParse(buf.Bytes(), 0)
+		if !ok {
+			t.Fatalf("harness: the walker cannot parse the valid encoding of %T", m)
+		}
+		if !bytes.Equal(pbSerialize(tree), buf.Bytes()) {
+			t.Fatalf("harness: walker round trip of %T differs", m)
+		}
+		var nodes []*pbNode
+		pbLeaves(tree, func(n *pbNode) { nodes = append(nodes, n) })
+		for _, n := range nodes {
+			idx++
+			if idx%ev.NShards() != ev.ShardIndex() {
+				continue
+			}
+			switch n.wt {
+			case 0, 1, 5:
+				old := n.v
+				for _, h := range hostileNumbers {
+					n.v = h
+					total++
+					if !subDecode.One(t, DecodeCase{Codec: "proto", Input: pbSerialize(tree), Note: fmt.Sprintf("sweep %s field %d := %d", msggen.TypeName(m), n.num, h)}) {
+						n.v = old
+						return
+					}
+				}
+				n.v = old
+			case 2:
+				oldRaw, oldNested := n.raw, n.nested
+				for _, alt := range [][]byte{nil, {0}, oldRaw[:len(oldRaw)/2], append(append([]byte(nil), oldRaw...), 0), bytes.Repeat([]byte{0xff}, 17), append(append([]byte(nil), oldRaw...), oldRaw...)} {
+					n.raw, n.nested = alt, false
+					total++
+					if !subDecode.One(t, DecodeCase{Codec: "proto", Input: pbSerialize(tree), Note: fmt.Sprintf("sweep %s field %d := %d bytes", msggen.TypeName(m), n.num, len(alt))}) {
+						n.raw, n.nested = oldRaw, oldNested
+						return
+					}
+				}
+				n.raw, n.nested = oldRaw, oldNested
+			}
+		}
+	}
+	ev.AddExtra("field_sweep_cases", int64(total))
 }
